@@ -548,6 +548,11 @@ func (e *Engine) registerVstub() {
 		e.loopBud = n
 		return nil
 	})
+	reg("SetEnumBound", func(e *Engine, fn *ssa.Function, a []Value) Value {
+		n, _ := intOf(a[0])
+		e.enumBound = n
+		return nil
+	})
 	reg("SetAllocLimit", func(e *Engine, fn *ssa.Function, a []Value) Value {
 		n, _ := intOf(a[0])
 		e.allocLim = int64(n)
